@@ -223,7 +223,7 @@ def body_analytic(case, ctx):
         ry = _fl(fv)
         # distance of the [-1,1]-side coordinate from the nearer end (inf for the maps defined on [0, inf))
         side = p if base["cls"] in O.PM1 and desc["cls"] != "Inverse" else (float(fv) if base["cls"] in O.PM1 else None)
-        dist = np.inf if side is None else max(min(1.0 + side, 1.0 - side), 1e-300)
+        dist = np.inf if side is None else max(min(1.0 + side, 1.0 - side), 1e-150)
         rec = {"p": p, "F": [fv] + fd, "dx": dx, "dist": dist, "fwd_ok": fwd_sens <= ILL * max(1.0, abs(float(fv))), "ry": ry, "inv_ok": False}
         rec["Fps"] = _param_sens(variants, "F", pm, rec["F"]) if variants else [0.0] * 4
         rm = O.M(ry)
